@@ -11,10 +11,11 @@ C08 line protocol.  One line = one whole case:
   tree     1 = the object graph is a tree (no container referenced twice): additionally run the
                tree-level machine and the recursive specification on the unfolded value
   prog     rules separated by `/`, a rule is `<neg>,<cond>,<act>`; `P-` is the empty program
-           cond: always isNone isInt isStr isCont isKind:<K> isEmptyCont falsy valIs:<atom> keyIs:<atom>
+           cond: always isNone isInt isStr isBytes isFloat isBool isCont isKind:<K> isEmptyCont falsy valIs:<atom> keyIs:<atom>
                  keyIsInt pathLenGe:<n> pathLastIs:<atom>
-           act:  keep keepPair drop incr setKey:<atom> setVal:<atom> keyIncr valLen valDepth raise
-  atom     n | i<int> | s<hex of utf-8>
+           act:  keep keepPair drop incr setKey:<atom> setVal:<atom> keyIncr keyNeg keyStr valLen valDepth raise
+                 (keyNeg: an int key k becomes -k; keyStr: an int key k becomes str(k))
+  atom     n | i<int> | s<hex of utf-8> | y<hex of the bytes> | f<twice the float, an integer> | b0 | b1 | o<n>
   obj      atom | @<node id>
   node     <K><items>  K in D L T S F; items separated by `,`; dict items are `<atom>=<obj>`;
            node ids are the positions of the node tokens, starting at 0
@@ -46,6 +47,13 @@ def parseAtom? : List Char → Option Atom
     match hexToBytes? (String.ofList r) with
     | none => none
     | some bs => (String.fromUTF8? (ByteArray.mk bs.toArray)).map Atom.str
+  | 'y' :: r =>
+    if r.isEmpty then some (.bytes []) else
+    (hexToBytes? (String.ofList r)).map fun bs => Atom.bytes (bs.map (·.toNat))
+  | 'f' :: r => (String.ofList r).toInt?.map Atom.float
+  | ['b', '0'] => some (.bool false)
+  | ['b', '1'] => some (.bool true)
+  | 'o' :: r => (String.ofList r).toNat?.map Atom.other
   | _ => none
 
 def parseObj? : List Char → Option Obj
@@ -69,6 +77,9 @@ def parseCond? (cs : List Char) : Option Cond :=
   | "isNone" => some .isNone
   | "isInt" => some .isInt
   | "isStr" => some .isStr
+  | "isBytes" => some .isBytes
+  | "isFloat" => some .isFloat
+  | "isBool" => some .isBool
   | "isCont" => some .isCont
   | "isKind" => match arg with
     | [c] => (parseKind? c).map Cond.isKind
@@ -92,6 +103,8 @@ def parseAct? (cs : List Char) : Option Act :=
   | "setKey" => (parseAtom? arg).map Act.setKey
   | "setVal" => (parseAtom? arg).map Act.setVal
   | "keyIncr" => some .keyIncr
+  | "keyNeg" => some .keyNeg
+  | "keyStr" => some .keyStr
   | "valLen" => some .valLen
   | "valDepth" => some .valDepth
   | "raise" => some .raise
@@ -140,6 +153,10 @@ def atomS : Atom → String
   | .none => "n"
   | .int i => "i" ++ toString i
   | .str s => "s" ++ (if s.isEmpty then "" else bytesToHex s.toUTF8.toList)
+  | .bytes b => "y" ++ (if b.isEmpty then "" else bytesToHex (b.map (·.toUInt8)))
+  | .float t => "f" ++ toString t
+  | .bool b => if b then "b1" else "b0"
+  | .other n => "o" ++ toString n
 
 def kindS : Kind → String
   | .dict => "D" | .list => "L" | .tuple => "T" | .set => "S" | .fset => "F"
